@@ -39,8 +39,70 @@ fn count_reachable(dom: &WeakDom, from: Ref) -> usize {
     n
 }
 
+/// Builders made on `threads` worker threads (three each, one of them with a child) are inserted
+/// into a DOM made on the main thread: referents must not depend on where they were generated.
+fn threads_probe(threads: usize) -> String {
+    let mut dom = WeakDom::new(InstanceBuilder::new("DataModel"));
+    let root = dom.root_ref();
+    let handles: Vec<_> = (0..threads)
+        .map(|t| {
+            std::thread::spawn(move || {
+                (0..3).map(|k| {
+                    let b = InstanceBuilder::new("Folder").with_name(format!("t{}k{}", t, k));
+                    if k == 2 { b.with_child(InstanceBuilder::new("Folder").with_name(format!("t{}leaf", t))) } else { b }
+                }).collect::<Vec<_>>()
+            })
+        })
+        .collect();
+    let mut expected_children = Vec::new();
+    for h in handles {
+        for b in h.join().expect("builder thread") {
+            let want = b.referent();
+            let got = dom.insert(root, b);
+            if got != want {
+                return format!("insert returned {} for a builder whose referent is {}", got, want);
+            }
+            expected_children.push(got);
+        }
+    }
+    if dom.root_ref() != root || dom.root().parent().is_some() {
+        return "the root changed or gained a parent".into();
+    }
+    if dom.root().children() != expected_children.as_slice() {
+        return format!("the root lists {} children, {} builders were inserted under it (builders from different threads share referents?)", dom.root().children().len(), expected_children.len());
+    }
+    let mut seen = std::collections::HashSet::new();
+    seen.insert(root);
+    for &c in &expected_children {
+        if !seen.insert(c) {
+            return format!("referent {} was handed out twice", c);
+        }
+        match dom.get_by_ref(c) {
+            Some(i) if i.parent() == root => {
+                for &g in i.children() {
+                    if !seen.insert(g) {
+                        return format!("referent {} was handed out twice", g);
+                    }
+                    if dom.get_by_ref(g).map(|x| x.parent()) != Some(c) {
+                        return "a grandchild does not name its parent".into();
+                    }
+                }
+            }
+            _ => return "an inserted instance is missing or names another parent".into(),
+        }
+    }
+    let total = dom.descendants().count();
+    if total != seen.len() {
+        return format!("descendants yields {} instances, {} were inserted", total, seen.len());
+    }
+    "ok".into()
+}
+
 /// Returns "ok" or a description of what went wrong.
 pub fn probe(size: usize, what: &str) -> String {
+    if what == "threads" {
+        return threads_probe(size);
+    }
     let deep = !what.starts_with("star-");
     let (mut dom, refs) = if deep { chain(size) } else { star(size) };
     let total = refs.len();
@@ -168,6 +230,25 @@ pub fn run_all() -> (Vec<(String, String, serde_json::Value)>, u64) {
                             out.push((format!("deepdom|{}|wrong-effect", what), format!("{} on a {} of {} instances: {}", p, if shape.is_empty() { "chain" } else { "star" }, size, last), case));
                         }
                     }
+                }
+            }
+        }
+    }
+    // construction spread over threads (1..4 builder threads)
+    for t in 1..=4usize {
+        n += 1;
+        let res = std::process::Command::new(&exe).arg("DEEPDOM").arg(t.to_string()).arg("threads").output();
+        let case = serde_json::json!({"deepdom": {"size": t, "probe": "threads"}});
+        match res {
+            Err(e) => crate::evidence::machinery_failure(&format!("cannot start probe: {}", e)),
+            Ok(o) => {
+                let text = String::from_utf8_lossy(&o.stdout);
+                let last = text.lines().last().unwrap_or("").to_owned();
+                if !o.status.success() {
+                    let err = String::from_utf8_lossy(&o.stderr);
+                    out.push(("deepdom|threads|abnormal exit".to_owned(), format!("inserting builders made on {} threads ends the process: {}", t, err.lines().find(|l| l.contains("panicked") || l.contains("overflow")).unwrap_or("").chars().take(160).collect::<String>()), case));
+                } else if last != "ok" {
+                    out.push(("deepdom|threads|forest".to_owned(), format!("builders made on {} threads inserted into one DOM: {}", t, last), case));
                 }
             }
         }
